@@ -84,7 +84,7 @@ class FSM:
         if not r["ok"]:
             return f"(RErr {r['err']})" if r["err"] in ERRS else "ROtherErr"
         if "c" in r:
-            return f"(RBytes {cq_bytes(r['c'])})"
+            return f"(RBytes (Raw {cq_bytes(r['c'])}))"
         if "names" in r:
             return f"(RNames {cq_list([cq_bytes(n) for n in r['names']])})"
         if "k" in r:
